@@ -698,6 +698,10 @@ impl<'a, 'b> RtGen<'a, 'b> {
                 let a_member = if getter {
                     self.label("getter-member-index");
                     format!("get a(): {}", a.text)
+                } else if self.c.chance(1, 4) {
+                    // a computed string-literal key is a statically known key
+                    self.label("computed-literal-member-index");
+                    format!("[\"a\"]: {}", a.text)
                 } else {
                     format!("a: {}", a.text)
                 };
